@@ -6,6 +6,7 @@ CONSTANTS
   MethodNames = {"f", "__ne__"}
   SelfKinds = {"pk", "po", "none"}
   BaseNaming = "set"
+  FixedMemberWithoutSelf = TRUE
   RMutant = "none"
   MaxExpected = 3
   MaxActual = 3
